@@ -43,9 +43,17 @@ Definition packet_ok (seen cur : list iface) (states : list (list selection)) (p
   (p_if p =? 0)      (* no interface owns the source address any more: the packet cannot leave *)
   || (addrs_ok seen p && enabled_ok seen cur states p).
 
+(* an interface whose learned addresses may still be reported: some entry of it is enabled by the
+   selections in force at some point of this iteration, or has left the OS table (the daemon has
+   not noticed yet).  An interface all of whose entries are reported by the OS and disabled has
+   been dropped by the daemon with everything learned on it, whatever the family of the record. *)
+Definition intf_live (seen cur : list iface) (states : list (list selection)) (idx : N) : bool :=
+  existsb (fun e => (i_index e =? idx) && (negb (iface_mem e cur) || selected_some states e)) seen.
+
 Definition obs_ok (seen cur : list iface) (states : list (list selection)) (o : obs) : bool :=
   match o with
   | OSent p => packet_ok seen cur states p
+  | OResolved _ _ _ _ addrs => forallb (fun ai => intf_live seen cur states (snd ai)) addrs
   | OIpAdd a => existsb (fun e => ip_eqb (i_ip e) a && selected_some states e) seen
   | OIpDel a => existsb (fun e => ip_eqb (i_ip e) a && (negb (iface_mem e cur) || unselected_some states e)) seen
   | _ => true
@@ -63,6 +71,27 @@ Fixpoint sel_states (sels : list selection) (cur : list iface) (calls : list cal
 Definition add_seen (seen tbl : list iface) : list iface :=
   fold_left (fun acc e => if iface_mem e acc then acc else acc ++ [e]) tbl seen.
 
+(* Automatic addressing follows the addresses: within one IP check the addresses that vanished are
+   withdrawn BEFORE the addresses found are added, so an address that moved to another interface
+   or changed its prefix is withdrawn and then added again, never the other way round (the
+   services would lose an address the host has).  Judged in iterations without enable / disable
+   calls (there every IpAdd / IpDel comes from the one IP check of the iteration) and for
+   addresses the OS table of the moment has on at most one entry. *)
+Definition no_sel_calls (calls : list call) : bool :=
+  forallb (fun c => match c with CEnable _ | CDisable _ => false | _ => true end) calls.
+Definition single_in (cur : list iface) (a : ip) : bool :=
+  Nat.leb (length (filter (fun e => ip_eqb (i_ip e) a) cur)) 1.
+Fixpoint no_del_after_add (cur : list iface) (os : list obs) : bool :=
+  match os with
+  | [] => true
+  | OIpAdd a :: t =>
+    negb (single_in cur a && existsb (fun o => match o with OIpDel b => ip_eqb a b | _ => false end) t)
+    && no_del_after_add cur t
+  | _ :: t => no_del_after_add cur t
+  end.
+Definition order_ok (cur : list iface) (calls : list call) (os : list obs) : bool :=
+  negb (no_sel_calls calls) || no_del_after_add cur os.
+
 (* all iterations of a history: steps with what was observed in them *)
 Fixpoint chk_from (seen cur : list iface) (sels : list selection) (h : list (step * list obs)) : bool :=
   match h with
@@ -71,7 +100,7 @@ Fixpoint chk_from (seen cur : list iface) (sels : list selection) (h : list (ste
     let cur' := match st_os s with Some t => t | None => cur end in
     let seen' := add_seen seen cur' in
     let states := sel_states sels cur' (st_calls s) in
-    forallb (obs_ok seen' cur' states) os && chk_from seen' cur' (last states sels) rest
+    forallb (obs_ok seen' cur' states) os && order_ok cur' (st_calls s) os && chk_from seen' cur' (last states sels) rest
   end.
 
 Definition chk_C18 (os0 : list iface) (h : list (step * list obs)) : bool := chk_from os0 os0 [] h.
